@@ -29,7 +29,7 @@ func (c *Ctx) visitorRule(rule string, fn ruleFn) {
 }
 
 func init() {
-	for _, id := range []string{"C17"} {
+	for _, id := range []string{} {
 		notApplicable[id] = "check not built yet at this commit (see DESIGN.md §7 build order); no claim is made"
 	}
 	properties["C12"] = &Property{
